@@ -30,6 +30,7 @@
  * Groups (--groups=wfcq,wfs,lfs,lfq,lfht,rs): see progress_q.h, progress_ht.h, progress_rs.h.
  */
 #include "vp.h"
+#include <sys/time.h>
 
 #ifndef VP_NO_LGPL
 /* customisation point documented by urcu/static/wfcqueue.h for LGPL users: reached only by the
@@ -191,7 +192,29 @@ static void set_verdict(int v)
 	st.verdict = v;
 	st.steps_at_verdict = st.steps;
 	release_all();
+#if !VP_TSAN
+	/* the verdict is taken; if the operation does not even return once everybody has been released (it spins
+	 * on its own), do not wait for the 2-minute watchdog to write the result */
+	struct itimerval itv = { { 0, 0 }, { 10, 0 } };
+	setitimer(ITIMER_REAL, &itv, NULL);
+#endif
 }
+
+#if !VP_TSAN
+static void alarm_handler(int sig)
+{
+	(void) sig;
+	if (st.active && st.verdict && st.os) {
+		char key[160];
+		snprintf(key, sizeof(key), "progress:%s:blocked-at:%s", st.os->name,
+			 cur.want_frozen && cur.P ? cur.P : "none");
+		vp_violation(key, "O=%s exceeded its bound of %llu own steps (%llu at the verdict) and had still not returned 10 s after every parked thread was released: it spins on its own",
+			     st.os->name, (unsigned long long) st.bound, (unsigned long long) st.steps_at_verdict);
+		int rc = vp_finish();
+		_exit(rc ? rc : 1);
+	}
+}
+#endif
 
 static void trap_handler(int sig, siginfo_t *si, void *ucv)
 {
@@ -248,6 +271,12 @@ static inline void step_begin(struct opstat *os)
 static inline void step_end(void)
 {
 	VP_STORE(st.active, 0);
+#if !VP_TSAN
+	if (st.verdict) {
+		struct itimerval off = { { 0, 0 }, { 0, 0 } };
+		setitimer(ITIMER_REAL, &off, NULL);	/* the operation did return: the normal path reports */
+	}
+#endif
 	ev_total_steps += st.steps;
 }
 
@@ -665,6 +694,15 @@ int main(int argc, char **argv)
 	sa.sa_flags = SA_SIGINFO;
 	sigemptyset(&sa.sa_mask);
 	sigaction(SIGTRAP, &sa, NULL);
+#if !VP_TSAN
+	{
+		struct sigaction sal;
+		memset(&sal, 0, sizeof(sal));
+		sal.sa_handler = alarm_handler;
+		sigemptyset(&sal.sa_mask);
+		sigaction(SIGALRM, &sal, NULL);
+	}
+#endif
 
 	vp_pin(0);
 	tl_subject = 1;
